@@ -8,7 +8,7 @@
 #include "netsim.h"
 #include "wire.h"
 
-enum { SV_SINGLE, SV_TABLE };
+enum { SV_SINGLE, SV_TABLE, SV_SNI };
 enum { CL_MATCH, CL_WRONG_KEY, CL_PREFIX_KEY, CL_LONGER_KEY, CL_UNKNOWN_ID, CL_REJECT_HINT, CL_MATCH_ID2, CL_NCLASSES };
 static const char *cl_names[] = {"match", "wrong-key", "prefix-key", "longer-key", "unknown-identity", "client-rejects-hint", "match-id2"};
 
@@ -21,6 +21,7 @@ struct cfg {
   int inject_at;
   int release_at; /* >=0: the application releases the session after this many events */
   int sni;
+  int sni_case;   /* SV_SNI only: which name / key the second client uses (see sni_cases) */
   int bound;
   int free_drops; /* drops of the first N datagrams cost nothing */
 };
@@ -52,8 +53,48 @@ static int events_done;
 static int released;
 static int faults_taken;
 
+/* SV_SNI: the server chooses the key by the client's SNI (callback): "gw.example.net" -> K2, "gw.example" -> K3, any other
+ * name -> refused; without SNI the default key K1 applies.  A first client completes a handshake as gw.example.net (so the
+ * server has that name in its cache of SNI credentials) before the client under test starts. */
+static const uint8_t K3[] = "0f1e2d3c4b5a6978";
+static coap_bin_const_t k3c = {16, K3};
+static const struct {
+  const char *sni;
+  const uint8_t *key;
+  int match;
+  const char *label;
+} sni_cases[] = {
+    {"gw.example", K3, 1, "second-name:own-key"},      {"gw.example", K2, 0, "prefix-of-cached-name:cached-key"},
+    {NULL, K1, 1, "no-sni:default-key"},               {NULL, K2, 0, "no-sni:cached-key"},
+    {"gw.example.net", K2, 1, "cached-name:its-key"},  {"GW.EXAMPLE.NET", K2, 1, "cached-name-other-case:its-key"},
+    {"gw.example.net", K3, 0, "cached-name:other-key"}, {"gw.example.netx", K2, 0, "longer-than-cached-name:cached-key"},
+    {"gw", K2, 0, "short-prefix:cached-key"},
+};
+#define N_SNI_CASES ((int)(sizeof sni_cases / sizeof sni_cases[0]))
+static int prephase, prephase_calls;
+static coap_dtls_spsk_info_t sni_info;
+static const coap_dtls_spsk_info_t *
+validate_sni(const char *sni, coap_session_t *session, void *arg) {
+  (void)session;
+  (void)arg;
+  memset(&sni_info, 0, sizeof sni_info);
+  sni_info.hint.s = (const uint8_t *)"h";
+  sni_info.hint.length = 1;
+  if (!strcasecmp(sni, "gw.example.net"))
+    sni_info.key = k2c;
+  else if (!strcasecmp(sni, "gw.example"))
+    sni_info.key = k3c;
+  else if (!sni[0])
+    sni_info.key = k1c; /* no SNI extension: libcoap passes the empty name; this application answers with its default key */
+  else
+    return NULL;
+  return &sni_info;
+}
+
 static int
 is_matching(void) {
+  if (C->sv == SV_SNI)
+    return sni_cases[C->sni_case].match;
   if (C->cl == CL_MATCH)
     return 1;
   if (C->cl == CL_MATCH_ID2)
@@ -87,9 +128,11 @@ hnd(coap_resource_t *r, coap_session_t *s, const coap_pdu_t *req, const coap_str
     char sig[100];
     snprintf(sig, sizeof sig, "cleartext-accepted:%s", C->inject == 2 ? "third-party" : "client-address");
     vx_fail(sig, "a cleartext CoAP datagram injected at the DTLS endpoint reached the request handler");
+  } else if (prephase) {
+    prephase_calls++; /* the first client of an SV_SNI scenario */
   } else if (!matching) {
     char sig[100];
-    snprintf(sig, sizeof sig, "handler-without-auth:server:%s", cl_names[C->cl]);
+    snprintf(sig, sizeof sig, "handler-without-auth:server:%s", C->sv == SV_SNI ? sni_cases[C->sni_case].label : cl_names[C->cl]);
     vx_fail(sig, "server request handler ran although client and server credentials differ (%s)", cl_names[C->cl]);
   }
   if (qi >= 0) {
@@ -325,6 +368,8 @@ run(void *arg) {
   spsk.psk_info.key.length = 16;
   if (C->sv == SV_TABLE)
     spsk.validate_id_call_back = validate_id;
+  if (C->sv == SV_SNI)
+    spsk.validate_sni_call_back = validate_sni;
   if (!coap_context_set_psk2(sc, &spsk)) {
     vx_fail("harness:set-psk2", "coap_context_set_psk2 failed");
     return;
@@ -334,6 +379,53 @@ run(void *arg) {
   coap_resource_t *r = coap_resource_init(coap_make_str_const("s3cr3t-path"), 0);
   coap_register_request_handler(r, COAP_REQUEST_GET, hnd);
   coap_add_resource(sc, r);
+  if (C->sv == SV_SNI) {
+    /* first client: gw.example.net with its key, fault free, to completion */
+    coap_context_t *pc = coap_new_context(NULL);
+    ns_register_ctx(pc);
+    coap_dtls_cpsk_t pp;
+    memset(&pp, 0, sizeof pp);
+    pp.version = COAP_DTLS_CPSK_SETUP_VERSION;
+    pp.client_sni = "gw.example.net";
+    pp.psk_info.identity.s = (const uint8_t *)"id1";
+    pp.psk_info.identity.length = 3;
+    pp.psk_info.key = k2c;
+    coap_address_t pa;
+    ns_addr(&pa, 51, 40003);
+    coap_session_t *ps = coap_new_client_session_psk2(pc, &pa, &srv_addr, COAP_PROTO_DTLS, &pp);
+    prephase = 1;
+    prephase_calls = 0;
+    if (ps) {
+      coap_pdu_t *p = coap_new_pdu(COAP_MESSAGE_CON, COAP_REQUEST_CODE_GET, ps);
+      uint8_t t = 0x70;
+      coap_add_token(p, 1, &t);
+      coap_add_option(p, COAP_OPTION_URI_PATH, 11, (const uint8_t *)"s3cr3t-path");
+      coap_send(ps, p);
+      for (int i = 0; i < 200; i++) {
+        ns_prepare_all();
+        if (!ns_inflight_count())
+          break;
+        ns_deliver(0);
+      }
+      coap_session_release(ps);
+    }
+    for (int i = 0; i < 50 && ns_inflight_count(); i++) {
+      ns_deliver(0);
+      ns_prepare_all();
+    }
+    ns_unregister_ctx(pc);
+    coap_free_context(pc);
+    while (ns_inflight_count())
+      ns_deliver(0);
+    ns_prepare_all();
+    while (ns_inflight_count())
+      ns_drop(0);
+    prephase = 0;
+    if (!prephase_calls)
+      vx_fail("harness:sni-first-client", "the first client (gw.example.net with its key) did not complete its handshake");
+    ev_connected_c = ev_connected_s = ev_closed = ev_error = 0;
+    established_seen_c = 0;
+  }
   /* client */
   cc = coap_new_context(NULL);
   ns_register_ctx(cc);
@@ -377,6 +469,10 @@ run(void *arg) {
   cpsk.psk_info.key.length = kl;
   if (C->sni)
     cpsk.client_sni = "server.example";
+  if (C->sv == SV_SNI) {
+    cpsk.client_sni = (char *)(uintptr_t)sni_cases[C->sni_case].sni;
+    memcpy(keybuf, sni_cases[C->sni_case].key, 16);
+  }
   cs = coap_new_client_session_psk2(cc, &cli_addr, &srv_addr, COAP_PROTO_DTLS, &cpsk);
   if (!cs) {
     vx_fail("harness:client-session", "coap_new_client_session_psk2 failed");
@@ -394,7 +490,7 @@ run(void *arg) {
   if (!matching && !C->inject) {
     if (ev_connected_c || ev_connected_s || established_seen_c) {
       char sig[100];
-      snprintf(sig, sizeof sig, "established-without-auth:%s", cl_names[C->cl]);
+      snprintf(sig, sizeof sig, "established-without-auth:%s", C->sv == SV_SNI ? sni_cases[C->sni_case].label : cl_names[C->cl]);
       vx_fail(sig, "session became established / DTLS_CONNECTED raised (client %d, server %d) although credentials differ", ev_connected_c,
               ev_connected_s);
     }
@@ -429,7 +525,7 @@ run(void *arg) {
           vx_fail("queued:out-of-order", "request %d reached the server before earlier-submitted request %d", i, j);
     } else if (!matching) {
       if (Q[i].con && Q[i].nacks != 1) {
-        snprintf(sig, sizeof sig, "nack-count=%d:%s%s", Q[i].nacks, cl_names[C->cl], C->release_at >= 0 ? ":released" : "");
+        snprintf(sig, sizeof sig, "nack-count=%d:%s%s", Q[i].nacks, C->sv == SV_SNI ? sni_cases[C->sni_case].label : cl_names[C->cl], C->release_at >= 0 ? ":released" : "");
         vx_fail(sig, "Confirmable request %d queued on a session whose handshake cannot succeed got %d NACKs (expected exactly 1)", i, Q[i].nacks);
       }
       if (!Q[i].con && Q[i].nacks)
@@ -458,8 +554,8 @@ static int ncfgs;
 static void
 add(struct cfg c) {
   cfgs = realloc(cfgs, sizeof *cfgs * (size_t)(ncfgs + 1));
-  snprintf(c.name, sizeof c.name, "c19:sv=%d,cl=%s,ncon=%d,non=%d,inj=%d@%d,rel=%d,sni=%d,fd=%d,B=%d", c.sv, cl_names[c.cl], c.ncon, c.with_non, c.inject,
-           c.inject_at, c.release_at, c.sni, c.free_drops, c.bound);
+  snprintf(c.name, sizeof c.name, "c19:sv=%d,cl=%s,ncon=%d,non=%d,inj=%d@%d,rel=%d,sni=%d/%d,fd=%d,B=%d", c.sv, cl_names[c.cl], c.ncon, c.with_non, c.inject,
+           c.inject_at, c.release_at, c.sni, c.sni_case, c.free_drops, c.bound);
   cfgs[ncfgs++] = c;
 }
 
@@ -477,6 +573,11 @@ main(int argc, char **argv) {
           c.bound = 1;
         add(c);
       }
+  /* key chosen by SNI; a first client has put one name into the server's SNI credential cache */
+  for (int k = 0; k < N_SNI_CASES; k++) {
+    struct cfg c = {.sv = SV_SNI, .cl = CL_MATCH, .ncon = 1, .release_at = -1, .sni_case = k, .bound = T ? 2 : 1};
+    add(c);
+  }
   /* cleartext injection at every step of the handshake */
   for (int who = 1; who <= 2; who++)
     for (int at = 0; at <= 10; at += (T ? 1 : 2)) {
@@ -505,7 +606,9 @@ main(int argc, char **argv) {
   }
   vx_ev_rule("real GnuTLS DTLS-PSK client and server contexts of libcoap over the simulated network with a virtual clock; product of server key "
              "table {single key, identity table} x client credentials {match, wrong key, prefix key, longer key, unknown identity, client rejects "
-             "hint, second identity} x queued requests {1 CON, 3 CON + 1 NON} x SNI; all schedules with <= bound drop/duplicate/reorder deviations "
+             "hint, second identity} x queued requests {1 CON, 3 CON + 1 NON} x SNI; a server choosing the key by SNI callback (two names with own keys, default key without SNI) "
+             "after a first client has completed a handshake under one name, x 9 (name, key) combinations of the second client incl. prefix / "
+             "longer / other-case / absent names; all schedules with <= bound drop/duplicate/reorder deviations "
              "over the first 14 datagrams; cleartext CoAP injected from the client's and a third address at each step; application release "
              "mid-handshake; every drop subset of the first 6 (quick) / 10 (thorough) datagrams; non-trivial = deviation taken");
   vx_ev_assumption("PSK only, GnuTLS back-end, DTLS only (TLS over stream sockets is not driven)");
